@@ -79,7 +79,8 @@ Lemma gate_no_panic sg mn mx args s : gate sg mn mx args <> Panic s.
 Proof.
   unfold gate. destruct (lisp_bounds sg mn mx) as [lo hi].
   repeat match goal with |- context [if ?c then _ else _] => destruct c end; try congruence.
-  destruct (first_bad _ _ _ _) as [[v t]|]; congruence.
+  destruct (first_bad _ _ _ _) as [[v t]|]; try congruence.
+  destruct (first_bad_fixed _ _) as [[? ?]|]; congruence.
 Qed.
 
 Lemma invoke_no_panic sg mn mx f args s : invoke sg mn mx f args <> Panic s.
